@@ -16,10 +16,12 @@ from .build import AnalysisBroken
 
 RULE = "R-WALK"
 KMAX = 5
+KMAX_THOROUGH = 12
 FUNCS = [("gridRingUnsafe", "origin", "k", "out", None), ("gridDiskDistancesUnsafe", "origin", "k", "out", "distances")]
 
 
 def check(ctx, m, cfg):
+    kmax = KMAX_THOROUGH if getattr(ctx, "tier", "quick") == "thorough" else KMAX
     n = 0
     for fname, on, kn, outn, extra in FUNCS:
         f = m.fn(fname)
@@ -35,7 +37,7 @@ def check(ctx, m, cfg):
         bad = None
         steps_total = 0
         try:
-            for k in range(1, KMAX + 1):
+            for k in range(1, kmax + 1):
                 st = {"next": 1000, "tested": set(), "viol": None, "steps": 0}
 
                 def nbr(ev, cargs, al, inst, st=st):
@@ -86,9 +88,9 @@ def check(ctx, m, cfg):
         except (Shape, AnalysisBroken) as e:
             ctx.broken(RULE, "%s: %s" % (fname, e))
             continue
-        inst = {"function": fname, "k_range": [1, KMAX], "walk_steps_followed": steps_total, "config": cfg}
+        inst = {"function": fname, "k_range": [1, kmax], "walk_steps_followed": steps_total, "config": cfg}
         if bad:
             ctx.violation(RULE, "%s:untested" % fname, bad[0], bad[1], inst)
         else:
-            ctx.ok(RULE, inst, "for k = 1..%d every walk step starts from a cell tested with isPentagon and every cell written to %s was tested before the final return" % (KMAX, outn))
+            ctx.ok(RULE, inst, "for k = 1..%d every walk step starts from a cell tested with isPentagon and every cell written to %s was tested before the final return" % (kmax, outn))
     return n
